@@ -889,8 +889,8 @@ LEVEL_TEXT = ("Machine-checked Coq theorems over a line-by-line model of Archive
               "contents and return values after every operation; a third of the histories offer several individuals with the same design vector "
               "(exactly or within the tolerance of Individual.__eq__, copies, the same object twice) and differing or coinciding costs, so that "
               "any dependence of add / truncate on Individual.__eq__ / __hash__ instead of object identity and costs shows up.")
-LEVEL_NOTE = ("Trusted: Coq kernel + vm_compute; FloatAxioms.ltb_spec/eqb_spec; the hand-written model and the Python harness; math.pow results are "
+LEVEL_NOTE = ("Trusted: Coq kernel + vm_compute; FloatAxioms.ltb_spec/eqb_spec; the hand-written model, the Python harness and tools/py2coq.py (translator of the two comparators, Archive.add and Archive.truncate); math.pow results are "
               "an oracle (per-individual tapes); sorted() modelled as a stable sort; Individual.__eq__ (only Archive.remove uses it, outside the property "
               "text) modelled by C20's vector equality. The theorems speak about cost vectors and object identities and hold whatever the design "
               "vectors are. Epsilon comparator: theorems need the separation hypothesis, "
-              "canonical markers and a tie-consistent oracle. Correspondence is sampled (generated + corpus histories), the theorems are unbounded.")
+              "canonical markers and a tie-consistent oracle (not proved for the implementation: conditional). append / extend / += are tied by the correspondence only (a fold of add). Correspondence is sampled (generated + corpus histories), the theorems are unbounded.")
